@@ -91,6 +91,7 @@ type vSim struct {
 	keepLog bool
 	onEv    func(ev *verifsim.TraceEvent, worldLocked bool)
 	tickWG  sync.WaitGroup // handler goroutines (incl. zombies of killed processes)
+	lastMaster atomic.Value // last value written to the master key (string)
 	freezeSeen atomic.Bool // a freeze call (read-only / stop IO) was applied: lazy replication may move
 }
 
